@@ -5,7 +5,7 @@
    navigation of Spec/Nav.v, [lc_demand] the demand of the property text
    (Spec/LCSpec.v), [wfn] the well-formedness both parsers establish. *)
 From Coq Require Import List Bool String Ascii ZArith Arith.
-From Verif Require Import Util Ints Node GoSrc Value Outcome Nav LC LCSpec LCSound Shapes GenUnits GenC10.
+From Verif Require Import Util Ints Node GoSrc Value Outcome Nav LC LCSpec LCSound ParserWf Shapes GenUnits GenC10.
 Import ListNotations.
 
 (* For EVERY well-formed node (no bound on nesting), every well-typed value and every path,
@@ -17,6 +17,20 @@ Theorem C10_length_capacity : forall fn n v path res0,
   meets (length_capacity fn n (APtr (Some v)) path res0) (lc_demand fn n v path).
 Proof. exact length_capacity_sound. Qed.
 Print Assumptions C10_length_capacity.
+
+(* The same for every root declaration of the grammar (struct, map or slice body; any nesting
+   depth): what the generator's parser builds is well-formed, so the theorem applies to it. *)
+Theorem C10_for_every_declared_type : forall fn pkg imp name body v path res0,
+  wf_ty body = true -> (match body with TStruct _ | TMap _ _ | TSlice _ => True | _ => False end) ->
+  wtb (parse_ast_decl pkg imp name body) v = true ->
+  meets (length_capacity fn (parse_ast_decl pkg imp name body) (APtr (Some v)) path res0)
+        (lc_demand fn (parse_ast_decl pkg imp name body) v path).
+Proof.
+  intros fn pkg imp name body v path res0 W R WT.
+  apply length_capacity_sound; [apply parse_ast_wfn; exact W| |exact WT].
+  destruct body; try contradiction; reflexivity.
+Qed.
+Print Assumptions C10_for_every_declared_type.
 
 (* ... they never panic, and the only error is the parse error. *)
 Theorem C10_only_parse_error_no_panic : forall fn n v path res0,
